@@ -31,11 +31,14 @@ import (
 	"go.opentelemetry.io/collector/config/configretry"
 	"go.opentelemetry.io/collector/consumer/consumererror"
 	"go.opentelemetry.io/collector/exporter"
+	"go.opentelemetry.io/collector/exporter/exporterhelper/internal"
 	"go.opentelemetry.io/collector/exporter/exporterhelper/internal/hosttest"
 	"go.opentelemetry.io/collector/exporter/exporterhelper/internal/request"
 	"go.opentelemetry.io/collector/exporter/exportertest"
 	"go.opentelemetry.io/collector/extension/xextension/storage"
 	"go.opentelemetry.io/collector/pdata/plog"
+	"go.opentelemetry.io/collector/pdata/pmetric"
+	"go.opentelemetry.io/collector/pdata/ptrace"
 )
 
 // ---- storage extension (map) that reports consumer-side use after Close instead of panicking ------------------
@@ -133,6 +136,223 @@ func c03IDs(ld plog.Logs) []int {
 	return out
 }
 
+// signals: 0 logs (record body = id), 1 traces (span name = id), 2 metrics (one gauge metric per id, data point value = id)
+const (
+	c03SigLogs = iota
+	c03SigTraces
+	c03SigMetrics
+)
+
+var c03SigName = []string{"logs", "traces", "metrics"}
+
+func c03Traces(ids []int) ptrace.Traces {
+	td := ptrace.NewTraces()
+	ss := td.ResourceSpans().AppendEmpty().ScopeSpans().AppendEmpty().Spans()
+	for _, id := range ids {
+		ss.AppendEmpty().SetName(strconv.Itoa(id))
+	}
+	return td
+}
+
+func c03TraceIDs(td ptrace.Traces) []int {
+	var out []int
+	for i := 0; i < td.ResourceSpans().Len(); i++ {
+		rs := td.ResourceSpans().At(i)
+		for j := 0; j < rs.ScopeSpans().Len(); j++ {
+			ss := rs.ScopeSpans().At(j)
+			for k := 0; k < ss.Spans().Len(); k++ {
+				n, _ := strconv.Atoi(ss.Spans().At(k).Name())
+				out = append(out, n)
+			}
+		}
+	}
+	return out
+}
+
+func c03Metrics(ids []int) pmetric.Metrics {
+	md := pmetric.NewMetrics()
+	ms := md.ResourceMetrics().AppendEmpty().ScopeMetrics().AppendEmpty().Metrics()
+	for _, id := range ids {
+		m := ms.AppendEmpty()
+		m.SetName("m" + strconv.Itoa(id))
+		m.SetEmptyGauge().DataPoints().AppendEmpty().SetIntValue(int64(id))
+	}
+	return md
+}
+
+func c03MetricIDs(md pmetric.Metrics) []int {
+	var out []int
+	for i := 0; i < md.ResourceMetrics().Len(); i++ {
+		rm := md.ResourceMetrics().At(i)
+		for j := 0; j < rm.ScopeMetrics().Len(); j++ {
+			sm := rm.ScopeMetrics().At(j)
+			for k := 0; k < sm.Metrics().Len(); k++ {
+				m := sm.Metrics().At(k)
+				if m.Type() != pmetric.MetricTypeGauge {
+					continue
+				}
+				for l := 0; l < m.Gauge().DataPoints().Len(); l++ {
+					out = append(out, int(m.Gauge().DataPoints().At(l).IntValue()))
+				}
+			}
+		}
+	}
+	return out
+}
+
+// c03ReqIDs: the items of a request of the helper's own request types
+func c03ReqIDs(req Request) []int {
+	switch r := req.(type) {
+	case *logsRequest:
+		return c03IDs(r.ld)
+	case *tracesRequest:
+		return c03TraceIDs(r.td)
+	case *metricsRequest:
+		return c03MetricIDs(r.md)
+	case *c03Req:
+		return c03ReqIDs(r.inner)
+	}
+	return nil
+}
+
+func c03Encoding(sig int) QueueBatchEncoding[Request] {
+	switch sig {
+	case c03SigTraces:
+		return tracesEncoding{}
+	case c03SigMetrics:
+		return metricsEncoding{}
+	}
+	return logsEncoding{}
+}
+
+// c03Req wraps the helper's request so that the batcher's MergeSplit calls (the Consume critical section) become
+// observable; everything is delegated to the real request.
+type c03Req struct {
+	inner Request
+	run   *c03Run
+	min   int64
+}
+
+func (r *c03Req) ItemsCount() int { return r.inner.ItemsCount() }
+
+func (r *c03Req) MergeSplit(ctx context.Context, maxSize int, szt RequestSizerType, other Request) ([]Request, error) {
+	var o Request
+	var cur, req []int
+	if other != nil {
+		o = other.(*c03Req).inner
+		cur = c03ReqIDs(r.inner)
+		req = c03ReqIDs(o)
+	} else {
+		req = c03ReqIDs(r.inner)
+	}
+	res, err := r.inner.MergeSplit(ctx, maxSize, szt, o)
+	out := make([]Request, len(res))
+	ev := c03Ev{kind: "ms", first: other == nil, cur: cur, ids: req, failed: err != nil}
+	for i := range res {
+		out[i] = &c03Req{inner: res[i], run: r.run, min: r.min}
+		ev.res = append(ev.res, c03ReqIDs(res[i]))
+	}
+	// default_batcher keeps the last result as the current batch iff it is smaller than min_size (items sizer)
+	if n := len(ev.res); n > 0 && int64(len(ev.res[n-1])) < r.min {
+		ev.keep = true
+	}
+	r.run.log(ev)
+	return out, err
+}
+
+func (r *c03Req) OnError(err error) Request {
+	if h, ok := r.inner.(RequestErrorHandler); ok {
+		return &c03Req{inner: h.OnError(err), run: r.run, min: r.min}
+	}
+	return r
+}
+
+type c03Enc struct {
+	sig int
+	run *c03Run
+	min int64
+}
+
+func (e c03Enc) Marshal(req Request) ([]byte, error) {
+	return c03Encoding(e.sig).Marshal(req.(*c03Req).inner)
+}
+
+func (e c03Enc) Unmarshal(b []byte) (Request, error) {
+	r, err := c03Encoding(e.sig).Unmarshal(b)
+	if err != nil {
+		return nil, err
+	}
+	return &c03Req{inner: r, run: e.run, min: e.min}, nil
+}
+
+type c03Built struct {
+	comp    component.Component
+	consume func(ctx context.Context, ids []int) error
+}
+
+// c03Build makes the exporter of the case's signal: the plain New<Signal> constructor, or (wrap) New<Signal>Request with the
+// observable wrapper around the helper's own request type.
+func c03Build(cs *c03Case, set exporter.Settings, run *c03Run, push func(ctx context.Context, ids []int) error, opts []Option) (*c03Built, error) {
+	bg := context.Background()
+	sig := cs.cfg.signal
+	if !cs.cfg.wrap {
+		switch sig {
+		case c03SigTraces:
+			e, err := NewTraces(bg, set, &struct{}{}, func(ctx context.Context, td ptrace.Traces) error { return push(ctx, c03TraceIDs(td)) }, opts...)
+			if err != nil {
+				return nil, err
+			}
+			return &c03Built{e, func(ctx context.Context, ids []int) error { return e.ConsumeTraces(ctx, c03Traces(ids)) }}, nil
+		case c03SigMetrics:
+			e, err := NewMetrics(bg, set, &struct{}{}, func(ctx context.Context, md pmetric.Metrics) error { return push(ctx, c03MetricIDs(md)) }, opts...)
+			if err != nil {
+				return nil, err
+			}
+			return &c03Built{e, func(ctx context.Context, ids []int) error { return e.ConsumeMetrics(ctx, c03Metrics(ids)) }}, nil
+		}
+		e, err := NewLogs(bg, set, &struct{}{}, func(ctx context.Context, ld plog.Logs) error { return push(ctx, c03IDs(ld)) }, opts...)
+		if err != nil {
+			return nil, err
+		}
+		return &c03Built{e, func(ctx context.Context, ids []int) error { return e.ConsumeLogs(ctx, c03Logs(ids)) }}, nil
+	}
+	min := cs.cfg.minSize
+	qs := QueueBatchSettings{
+		Encoding: c03Enc{sig: sig, run: run, min: min},
+		Sizers: map[RequestSizerType]RequestSizer{
+			RequestSizerTypeRequests: NewRequestsSizer(),
+			RequestSizerTypeItems:    request.NewItemsSizer(),
+		},
+	}
+	opts = append([]Option{internal.WithQueueBatchSettings(qs)}, opts...)
+	consume := func(ctx context.Context, req Request) error { return push(ctx, c03ReqIDs(req)) }
+	switch sig {
+	case c03SigTraces:
+		e, err := NewTracesRequest(bg, set, func(_ context.Context, td ptrace.Traces) (Request, error) {
+			return &c03Req{inner: newTracesRequest(td), run: run, min: min}, nil
+		}, consume, opts...)
+		if err != nil {
+			return nil, err
+		}
+		return &c03Built{e, func(ctx context.Context, ids []int) error { return e.ConsumeTraces(ctx, c03Traces(ids)) }}, nil
+	case c03SigMetrics:
+		e, err := NewMetricsRequest(bg, set, func(_ context.Context, md pmetric.Metrics) (Request, error) {
+			return &c03Req{inner: newMetricsRequest(md), run: run, min: min}, nil
+		}, consume, opts...)
+		if err != nil {
+			return nil, err
+		}
+		return &c03Built{e, func(ctx context.Context, ids []int) error { return e.ConsumeMetrics(ctx, c03Metrics(ids)) }}, nil
+	}
+	e, err := NewLogsRequest(bg, set, func(_ context.Context, ld plog.Logs) (Request, error) {
+		return &c03Req{inner: newLogsRequest(ld), run: run, min: min}, nil
+	}, consume, opts...)
+	if err != nil {
+		return nil, err
+	}
+	return &c03Built{e, func(ctx context.Context, ids []int) error { return e.ConsumeLogs(ctx, c03Logs(ids)) }}, nil
+}
+
 func c03Join(ids []int) string {
 	if len(ids) == 0 {
 		return "-"
@@ -147,6 +367,8 @@ func c03Join(ids []int) string {
 // ---- case description -----------------------------------------------------------------------------------------
 
 type c03Cfg struct {
+	signal     int  // c03SigLogs | c03SigTraces | c03SigMetrics
+	wrap       bool // New<Signal>Request with the observable request wrapper (MergeSplit calls logged)
 	queue      bool // sending queue enabled
 	persistent bool
 	sizer      string // requests | items
@@ -298,6 +520,8 @@ func c03Gen(c int) *c03Case {
 	if rnd.IntN(4) == 0 {
 		cfg.timeout = 2 * time.Second
 	}
+	cfg.signal = []int{c03SigLogs, c03SigLogs, c03SigTraces, c03SigMetrics}[rnd.IntN(4)]
+	cfg.wrap = rnd.IntN(4) != 0
 	// actions
 	nSend := 1 + rnd.IntN(12)
 	t := time.Duration(0)
@@ -376,11 +600,17 @@ func c03Corpus() []*c03Case {
 // ---- running one case -----------------------------------------------------------------------------------------
 
 type c03Ev struct {
-	kind   string // acc rej shutreq shutret es ee wshut uac
+	kind   string // ss acc rej shutreq shutret es ee wshut uac ms
 	id     int
 	ids    []int
 	failed bool
+	perm   bool // ee: the call returned a permanent error
 	s      string
+	// ms (MergeSplit call = Consume critical section of the default batcher)
+	first bool    // no current batch
+	cur   []int   // items of the current batch
+	res   [][]int // result list
+	keep  bool    // the last result stays as the current batch
 }
 
 type c03Run struct {
@@ -420,12 +650,12 @@ func c03Exec(cs *c03Case, set exporter.Settings, beforeShutdown func(run *c03Run
 	}
 	var callMu sync.Mutex
 	calls := 0
-	pusher := func(ctx context.Context, ld plog.Logs) error {
+	pusher := func(ctx context.Context, ids []int) error {
 		callMu.Lock()
 		k := calls
 		calls++
 		callMu.Unlock()
-		run.log(c03Ev{kind: "es", id: k, ids: c03IDs(ld)})
+		run.log(c03Ev{kind: "es", id: k, ids: ids})
 		var call c03Call
 		if k < len(cs.backend) {
 			call = cs.backend[k]
@@ -442,23 +672,26 @@ func c03Exec(cs *c03Case, set exporter.Settings, beforeShutdown func(run *c03Run
 				time.Sleep(call.dur)
 			}
 		}
+		perm := false
 		if err == nil {
 			switch call.outcome {
 			case 1:
 				err = errors.New("transient")
 			case 2:
 				err = consumererror.NewPermanent(errors.New("permanent"))
+				perm = true
 			}
 		}
-		run.log(c03Ev{kind: "ee", id: k, failed: err != nil})
+		run.log(c03Ev{kind: "ee", id: k, failed: err != nil, perm: perm})
 		return err
 	}
 	opts = append(opts, WithShutdown(func(context.Context) error { run.log(c03Ev{kind: "wshut"}); return nil }))
-	exp, err := NewLogs(bg, set, &struct{}{}, pusher, opts...)
+	built, err := c03Build(cs, set, run, pusher, opts)
 	if err != nil {
 		run.buildErr = err
 		return run
 	}
+	exp := built.comp
 	if err = exp.Start(bg, host); err != nil {
 		run.buildErr = err
 		return run
@@ -494,7 +727,7 @@ func c03Exec(cs *c03Case, set exporter.Settings, beforeShutdown func(run *c03Run
 				ids[j] = a.rid*100 + j
 			}
 			run.log(c03Ev{kind: "ss", id: a.rid, ids: ids})
-			e := exp.ConsumeLogs(sendCtx, c03Logs(ids))
+			e := built.consume(sendCtx, ids)
 			if e == nil {
 				run.log(c03Ev{kind: "acc", id: a.rid, ids: ids})
 			} else {
@@ -535,8 +768,8 @@ func c03Exec(cs *c03Case, set exporter.Settings, beforeShutdown func(run *c03Run
 			if _, perr := strconv.ParseUint(k, 10, 64); perr != nil {
 				continue
 			}
-			if req, uerr := (logsEncoding{}).Unmarshal(v); uerr == nil {
-				run.stored = append(run.stored, c03IDs(req.(*logsRequest).ld)...)
+			if req, uerr := c03Encoding(cs.cfg.signal).Unmarshal(v); uerr == nil {
+				run.stored = append(run.stored, c03ReqIDs(req)...)
 			}
 		}
 		st.mu.Unlock()
@@ -550,12 +783,18 @@ func c03Exec(cs *c03Case, set exporter.Settings, beforeShutdown func(run *c03Run
 		ropts, err := rcfg.options(&host, st)
 		if err == nil {
 			st.onUAC = nil
-			rexp, err := NewLogs(bg, exportertest.NewNopSettings(exportertest.NopType), &struct{}{}, func(_ context.Context, ld plog.Logs) error {
+			rcase := &c03Case{cfg: rcfg}
+			rcase.cfg.wrap = false
+			rb, err := c03Build(rcase, exportertest.NewNopSettings(exportertest.NopType), run, func(_ context.Context, ids []int) error {
 				rmu.Lock()
-				run.recovered = append(run.recovered, c03IDs(ld)...)
+				run.recovered = append(run.recovered, ids...)
 				rmu.Unlock()
 				return nil
-			}, ropts...)
+			}, ropts)
+			var rexp component.Component
+			if err == nil {
+				rexp = rb.comp
+			}
 			if err == nil && rexp.Start(bg, host) == nil {
 				time.Sleep(time.Second)
 				synctest.Wait()
@@ -721,8 +960,8 @@ func c03D(d time.Duration) string { return strconv.FormatInt(int64(d), 10) }
 func c03EmitOps(out *vOut, idx int, cs *c03Case) {
 	c := cs.cfg
 	out.Linef("case %d", idx)
-	out.Linef("op cfg queue=%d persistent=%d sizer=%s cap=%d consumers=%d wfr=%d block=%d batch=%d flush=%s min=%d max=%d retry=%d initial=%s maxelapsed=%s timeout=%s",
-		vB(c.queue), vB(c.persistent), c.sizer, c.capacity, c.consumers, vB(c.wfr), vB(c.block), c.batch, c03D(c.flushTO), c.minSize, c.maxSize,
+	out.Linef("op cfg signal=%s wrap=%d queue=%d persistent=%d sizer=%s cap=%d consumers=%d wfr=%d block=%d batch=%d flush=%s min=%d max=%d retry=%d initial=%s maxelapsed=%s timeout=%s",
+		c03SigName[c.signal], vB(c.wrap), vB(c.queue), vB(c.persistent), c.sizer, c.capacity, c.consumers, vB(c.wfr), vB(c.block), c.batch, c03D(c.flushTO), c.minSize, c.maxSize,
 		vB(c.retry), c03D(c.initial), c03D(c.maxElapsed), c03D(c.timeout))
 	for _, a := range cs.acts {
 		if a.shutdown {
@@ -740,12 +979,23 @@ func c03EmitTrace(out *vOut, cs *c03Case, run *c03Run) {
 	for _, e := range run.evs {
 		switch e.kind {
 		case "ss":
+			out.Linef("tr ss %d %s", e.id, c03Join(e.ids))
+		case "ms":
+			parts := make([]string, len(e.res))
+			for i, r := range e.res {
+				parts[i] = c03Join(r)
+			}
+			rs := "-"
+			if len(parts) > 0 {
+				rs = strings.Join(parts, ";")
+			}
+			out.Linef("tr ms first=%d cur=%s req=%s res=%s keep=%d err=%d", vB(e.first), c03Join(e.cur), c03Join(e.ids), rs, vB(e.keep), vB(e.failed))
 		case "acc", "rej":
 			out.Linef("tr %s %d %s", e.kind, e.id, c03Join(e.ids))
 		case "es":
 			out.Linef("tr es %d %s", e.id, c03Join(e.ids))
 		case "ee":
-			out.Linef("tr ee %d %d", e.id, vB(e.failed))
+			out.Linef("tr ee %d %d %d", e.id, vB(e.failed), vB(e.perm))
 		case "shutret":
 			out.Linef("tr shutret %d", vB(e.failed))
 		case "uac":
@@ -831,6 +1081,10 @@ func c03Emit(out *vOut, idx int, cs *c03Case, run *c03Run) {
 	out.Linef("stat accepted %d", v.nAcc)
 	out.Linef("stat refused %d", v.nRej)
 	out.Linef("stat cfg_%s_batch%d %d", kind, c.batch, 1)
+	out.Linef("stat signal_%s 1", c03SigName[c.signal])
+	if c.wrap {
+		out.Linef("stat request_wrapper 1")
+	}
 	if c.retry {
 		out.Linef("stat cfg_retry 1")
 	}
